@@ -37,28 +37,19 @@ def priority_rules(ctx):
     po = F.fn(r"CompiledDfa::priority_of$")
     ctx.analysed_fn(po)
     ex, paths = run_fn(po, F, BaseModel())
-    for p in ret_paths(paths):
-        pos = [e for e in p.events if e[0] == "call" and re.search(r"iter::Iterator>::(position|rposition)", e[2])]
-        ok = len(pos) == 1 and re.search(r"Iterator>::position::", pos[0][2]) is not None
-        itv = ("unit",)
-        if pos and pos[0][4] and pos[0][4][0] == "app":
-            a0 = pos[0][4][2][0]
-            itv = a0[3] if a0[0] == "ref" and len(a0) > 3 else a0
-            n = 0
-            while itv[0] == "ref" and n < 6:
-                itv = ex.read_loc(p, itv[1]) if itv[1][1][0] != "local" else (itv[3] if len(itv) > 3 else itv)
-                n += 1
-        it = S.vstr(itv)
-        ok_it = S.mentions(itv, lambda x: x == ("field", ("sym", "self"), "terminal_ids")) and not S.mentions(itv, lambda x: x[0] == "app")
-        ctx.ob("C01.c", "priority_of:first-position-in-terminal_ids", ok and ok_it, "priority = %s" % (S.vstr(p.end[1])[:160]), po.loc())
-    cl = F.closures_of(po)
-    ctx.floor("C01.c", "predicate closures of priority_of", len(cl), 1)
-    for c in cl:
-        ex, paths = run_fn(c, F, BaseModel())
-        for p in ret_paths(paths):
-            r = p.end[1]
-            ok = r[0] == "binop" and r[1] == "Eq" and {S.vstr(r[2]).lstrip("*&"), S.vstr(r[3]).lstrip("*&")} >= {"arg2"} and c.upvar_names().get(0) == "terminal_id"
-            ctx.ob("C01.c", "priority_of:predicate-is-equality-with-the-terminal", ok, "predicate returns %s (captured %s)" % (S.vstr(r), c.upvar_names()), c.loc())
+    from .common import search_table, is_eq_of, hit_is_index_of
+    st = search_table(ex, paths)
+    bad = [M.short_name(M.call_name(t)) for bb, t in po.calls(r"Iterator>::(rev|rposition|skip|take|filter|step_by|skip_while|take_while|chain|zip)\b|::(binary_search\w*|sort\w*)$")]
+    ok_src = bool(st["source"]) and all("self.terminal_ids" in x for x in st["source"]) and not bad
+    ctx.ob("C01.c", "priority_of:searches-terminal_ids-front-to-back", ok_src, "search over %s; reordering / non-linear search calls: %s" % (sorted(set(st["source"])), bad), po.loc())
+    ctx.floor("C01.c", "paths of priority_of that find the terminal", len(st["hit"]), 1)
+    for r, ic, p in st["hit"]:
+        good = [c for c, o in ic if o is True and is_eq_of(c, r"item@bb\d+(\.1)?\)?$", r"^\(?\*?terminal_id\)?$")]
+        ok = bool(good) and hit_is_index_of(r, good[0])
+        ctx.ob("C01.c", "priority_of:first-position-in-terminal_ids", ok, "priority = %s under %s" % (S.vstr(r)[:60], [(S.fstr(c)[:60], o) for c, o in ic]), po.loc())
+    for ic, p in st["miss"]:
+        ok = any(o is False and is_eq_of(c, r"item@bb\d+(\.1)?\)?$", r"^\(?\*?terminal_id\)?$") for c, o in ic)
+        ctx.ob("C01.c", "priority_of:predicate-is-equality-with-the-terminal", ok, "the search moves on under %s" % [(S.fstr(c)[:60], o) for c, o in ic], po.loc())
     # terminal_ids construction: order preserving map over the pattern list, both constructors
     from .cursor import Model as VecModel
     for pat, src in ((r"CompiledDfa as std::convert::From<internal::multi_pattern_nfa::MultiPatternNfa>>::from$", "mp_nfa"),
